@@ -66,9 +66,18 @@ class Keyless(_NoReplay):
 @contract("genjax.pjax:FlatSamplerCache.get_flat_sampler", ["C06", "C07", "C13"])
 class FlatCache(_NoReplay):
     """the flat keyed sampler is staged with the fake key passed AS AN ARGUMENT (so the real sub-key given at
-    interpretation time replaces it) and with the site's sample_shape; cached per argument signature"""
+    interpretation time replaces it) and with the site's sample_shape; over a HISTORY of calls on one cache (a binder
+    that is used for several sites) every flat sampler handed back evaluates a program that was staged on arguments of
+    THAT call's structure, shapes and dtypes - a program staged for scalar parameters applied to vector parameters
+    would give the vector site one broadcast draw instead of its own draw per element (C07: each site's draw follows
+    that site's distribution)"""
 
     cases = ["default"]
+
+    def replay(self, case, clause, model, path):
+        from .native import run_native
+
+        return run_native("binder_reuse")
 
     def call(self, case):
         self.staged = []
@@ -77,32 +86,51 @@ class FlatCache(_NoReplay):
         def fake_stage(f, **params):
             def wrapped(*a, **k):
                 outer.staged.append((f, a, k))
-                return (types.SimpleNamespace(jaxpr="JAXPR"), "meta")
+                return (types.SimpleNamespace(jaxpr=("JAXPR", len(outer.staged) - 1)), "meta")
 
             return wrapped
 
-        self._o = pjax.stage
-        pjax.stage = fake_stage
-        pjax._fake_key = Sym(Key.tainted)
         self.ks = lambda key, *a, sample_shape=(), **k: None
         cfg = pjax.SamplerConfig(keyful_sampler=self.ks, name="d", sample_shape=(3,))
         c = pjax.FlatSamplerCache(cfg)
-        self.a, self.b = value("a"), value("b")
-        try:
-            f1 = self.real(c.get_flat_sampler, self.a, self.b)
-            f2 = self.real(c.get_flat_sampler, self.b, self.a)
-            f3 = self.real(c.get_flat_sampler, self.a, scale=self.b)
-            return f1, f2, f3
-        finally:
-            pjax.stage = self._o
+        self.a, self.b = Sym(fresh("a", z3.RealSort())), Sym(fresh("b", z3.RealSort()))
+        self.v, self.w = Tensor.fresh("v", (4,)), Tensor.fresh("w", (4,))
+        self.k = Sym(fresh("k", z3.IntSort()))
+        self.calls = [
+            ((self.a, self.b), {}), ((self.b, self.a), {}), ((self.k, self.b), {}), ((self.v, self.b), {}), ((self.a, self.b), {}),
+            ((self.a,), {"scale": self.b}), ((self.a,), {"scale": self.w}), ((self.a,), {"loc": self.b}),
+        ]
+        from .extra2 import patched
+
+        with patched(pjax, stage=fake_stage, _fake_key=Sym(Key.tainted), eval_jaxpr=lambda jaxpr, consts, *args: ("evaluated", jaxpr)):
+            out = []
+            for args, kw in self.calls:
+                f = self.real(c.get_flat_sampler, *args, **kw)
+                n_staged = len(self.staged)
+                ev = self.real(f, value("sub_key"), *real_jtu.tree_leaves((args, kw), is_leaf=lambda x: isinstance(x, (Sym, Tensor))), num_consts=0)
+                out.append((f, ev, n_staged))
+            return out
+
+    @staticmethod
+    def aval(x):
+        return (tuple(x.shape) if isinstance(x, Tensor) else (), x.elem_sort() if isinstance(x, Tensor) else x.e.sort())
 
     def ensures(self, case, path):
         yield "does_not_raise", path.outcome == "return"
         if path.outcome != "return":
             return
-        f1, f2, f3 = path.value
         st = self.staged
-        yield "staged_once_per_argument_signature", len(st) == 2 and f1 is f2 and f3 is not f1
+        is_leaf = lambda x: isinstance(x, (Sym, Tensor))
+        for n, ((args, kw), (f, ev, n_staged)) in enumerate(zip(self.calls, path.value)):
+            ok = isinstance(ev, tuple) and len(ev) == 2 and ev[0] == "evaluated" and isinstance(ev[1], tuple) and ev[1][0] == "JAXPR"
+            yield "call_%d:the_flat_sampler_evaluates_a_staged_program" % n, ok
+            if not ok:
+                continue
+            sf, sa, sk = st[ev[1][1]]
+            want = [self.aval(x) for x in real_jtu.tree_leaves((args, kw), is_leaf=is_leaf)]
+            got = [self.aval(x) for x in real_jtu.tree_leaves((sa[1:], sk), is_leaf=is_leaf)]
+            same_tree = real_jtu.tree_structure((tuple(sa[1:]), sk), is_leaf=is_leaf) == real_jtu.tree_structure((tuple(args), kw), is_leaf=is_leaf)
+            yield "call_%d:that_program_was_staged_on_arguments_of_this_calls_structure_shapes_and_dtypes" % n, same_tree and want == got
         if len(st) >= 1:
             f, a, k = st[0]
             yield "fake_key_is_a_staged_ARGUMENT_followed_by_the_site_arguments", len(a) == 3 and isinstance(a[0], Sym) and z3.eq(a[0].e, Key.tainted) and a[1] is self.a and a[2] is self.b
